@@ -854,7 +854,7 @@ func (e *Exec) exec1(op string, pos []string, kv map[string]string, line string)
 			if err := w.Main.Reopen(); err != nil {
 				return "error:" + err.Error()
 			}
-			reached, common, desc := selRaceAt(w.Main.S, addr, need, k)
+			reached, common, desc := selRaceAt(w.Main.S, addr, need, k, kv["x"] == "1")
 			if common != "" {
 				e.violate("selection-handed-twice", fmt.Sprintf("two concurrent SelectUtxos(%s, %s, lock) were both handed output %s (selector B ran while selector A was at its log call #%d %q)", pos[0], pos[1], common, k, desc), line)
 				break
@@ -871,7 +871,21 @@ func (e *Exec) exec1(op string, pos []string, kv map[string]string, line string)
 		// GetBalance of a cold address overlaps an admission: the tx lands right after the balance scan took its snapshot
 		t := w.Txs[atoi(pos[1])]
 		addr := w.AddrOf[pos[0]]
-		w.Main.S.ClearCache()
+		if kv["nc"] != "1" {
+			w.Main.S.ClearCache() // nc=1: the caches stay as the history left them
+		}
+		preAns := ""
+		if kv["pre"] != "" {
+			// an admission touching the address while its balance is not cached and not queried afterwards: the address
+			// carries an un-queried change when the racing reader starts
+			pt := w.Txs[atoi(kv["pre"])]
+			c := *pt.Tx
+			errP := w.Main.S.DoTx(&c)
+			if errP == nil {
+				e.pool = append(e.pool, pt.Idx)
+			}
+			preAns = errEnum(errP) + ","
+		}
 		var errT error
 		fired := false
 		kvmem.SetOnIter(func(store, prefix string) {
@@ -898,7 +912,7 @@ func (e *Exec) exec1(op string, pos []string, kv map[string]string, line string)
 		}
 		e.checkPool(line)
 		e.checkState(line)
-		return errEnum(errT)
+		return preAns + errEnum(errT)
 	case "atx":
 		// a generated (autogen) transaction carrying only a read / write set, as the timer task produces them
 		t := &TxInfo{From: "-", Autogen: true, KIn: parseKIn(kv["kin"]), KOut: parseKOut(kv["kout"])}
@@ -1525,12 +1539,23 @@ var _ = ledger.ErrBlockNotExist
 
 // selRaceAt runs selector A until its k-th log call, lets selector B run (to its end, or until it is seen to wait for
 // A), then lets A finish. Returns whether A reached that point, and an output that both selectors were handed.
-func selRaceAt(s *state.State, addr string, need *big.Int, k int) (bool, string, string) {
+// With failing=true selector A excludes unconfirmed outputs and asks for more than the address holds (it fails and rolls
+// its locks back), B is an ordinary locking selector running in the middle of A, and a third locking selector C runs after
+// both: what B was handed must not be handed to C.
+func selRaceAt(s *state.State, addr string, need *big.Int, k int, failing bool) (bool, string, string) {
 	type res struct {
 		ins []*protos.TxInput
 		err error
 	}
+	first := true
 	sel := func(c chan res) {
+		if failing && first {
+			first = false
+			huge := new(big.Int).Lsh(big.NewInt(1), 100)
+			ins, _, _, err := s.SelectUtxos(addr, huge, true, true)
+			c <- res{ins, err}
+			return
+		}
 		ins, _, _, err := s.SelectUtxos(addr, need, true, false)
 		c <- res{ins, err}
 	}
@@ -1571,6 +1596,12 @@ func selRaceAt(s *state.State, addr string, need *big.Int, k int) (bool, string,
 	a = <-ra
 	if !gotB {
 		b = <-rb
+	}
+	if failing {
+		// A has failed and rolled back; C selects now: B's outputs are still B's
+		rc := make(chan res, 1)
+		sel(rc)
+		a = <-rc
 	}
 	if a.err != nil || b.err != nil {
 		return true, "", desc
